@@ -1084,3 +1084,91 @@ def rename_ring(n, kind):
         parts = ["SCHEMA s0;\nENTITY x;\n  v : INTEGER;\nEND_ENTITY;\nENTITY u SUBTYPE OF (x);\n  w : INTEGER;\nEND_ENTITY;\nEND_SCHEMA;\n"]
     return "".join(parts).encode()
 
+
+# ------------------------------------------------------------------ lattices: many paths through few declarations (valid EXPRESS)
+def inheritance_ladder(n, variant="plain"):
+    """n levels of two entities each, every entity a subtype of both entities of the level above: 2n entities, 2^n supertype
+    paths from the bottom to the top.  variants: plain; super (explicit SUPERTYPE OF (… ANDOR …)); rules (DERIVE / WHERE /
+    UNIQUE that use inherited attributes at every level)"""
+    out = ["SCHEMA s;"]
+    for i in range(n):
+        sub = f" SUBTYPE OF (a{i - 1}, b{i - 1})" if i else ""
+        sup = f" SUPERTYPE OF (a{i + 1} ANDOR b{i + 1})" if variant == "super" and i < n - 1 else ""
+        if variant == "rules" and i:
+            out.append(f"ENTITY a{i}{sub}; x{i} : INTEGER; DERIVE d{i} : INTEGER := x0 + y0; WHERE w : SELF\\a0.x0 > 0; END_ENTITY;")
+            out.append(f"ENTITY b{i}{sub}; y{i} : INTEGER; UNIQUE u : y{i}, x0; END_ENTITY;")
+        else:
+            out.append(f"ENTITY a{i}{sup}{sub}; x{i} : INTEGER; END_ENTITY;")
+            out.append(f"ENTITY b{i}{sup}{sub}; y{i} : INTEGER; END_ENTITY;")
+    out.append(f"ENTITY user; r : a{n - 1}; END_ENTITY;")
+    out.append("END_SCHEMA;")
+    return ("\n".join(out) + "\n").encode()
+
+
+def select_ladder(n):
+    """n levels of two SELECT types each, every select naming both selects of the level below: 2^n paths to the two entities"""
+    out = ["SCHEMA s;", "ENTITY e0; x : INTEGER; END_ENTITY;", "ENTITY f0; y : INTEGER; END_ENTITY;"]
+    for i in range(n):
+        items = f"sa{i - 1}, sb{i - 1}" if i else "e0, f0"
+        out.append(f"TYPE sa{i} = SELECT ({items}); END_TYPE;")
+        out.append(f"TYPE sb{i} = SELECT ({items}); END_TYPE;")
+    out.append(f"ENTITY user; u : sa{n - 1}; v : LIST OF sb{n - 1}; WHERE w : u.x > 0; END_ENTITY;")
+    out.append("END_SCHEMA;")
+    return ("\n".join(out) + "\n").encode()
+
+
+def type_ladder(n):
+    """defined types and aggregates over a lattice of defined types: TYPE t<i> = LIST OF t<i-1>, used from two places per level"""
+    out = ["SCHEMA s;", "TYPE ta0 = INTEGER; END_TYPE;", "TYPE tb0 = REAL; END_TYPE;"]
+    for i in range(1, n):
+        out.append(f"TYPE ta{i} = SELECT (ta{i - 1}, tb{i - 1}); END_TYPE;")
+        out.append(f"TYPE tb{i} = LIST OF ta{i - 1}; END_TYPE;")
+    out.append(f"ENTITY user; u : ta{n - 1}; v : tb{n - 1}; END_ENTITY;")
+    out.append("END_SCHEMA;")
+    return ("\n".join(out) + "\n").encode()
+
+
+FAMILIES["ladder_plain"] = lambda n: inheritance_ladder(n, "plain")
+FAMILIES["ladder_super"] = lambda n: inheritance_ladder(n, "super")
+FAMILIES["ladder_rules"] = lambda n: inheritance_ladder(n, "rules")
+FAMILIES["ladder_select"] = select_ladder
+FAMILIES["ladder_type"] = type_ladder
+
+
+REPEAT_POSITIONS = ("case_label_function", "case_label_rule", "case_label_nested", "local_initialiser", "derive", "where", "call_argument")
+
+
+def repeat_count(position, n, kind="ident"):
+    """an aggregate initialiser with a repetition `[ 0 : <count> ]` whose count expression prints about n characters
+    (kind ident: one long identifier; sum: 1 + 1 + …; call: a long function name)"""
+    if kind == "sum":
+        count, decl_p, decl_e = " + ".join(["1"] * max(1, n // 4)), "", ""
+    elif kind == "call":
+        fname = "g" + "f" * (n - 1)
+        count, decl_p, decl_e = f"{fname}(1)", "", f"FUNCTION {fname}(q : INTEGER) : INTEGER;\n  RETURN (q);\nEND_FUNCTION;\n"
+    else:
+        count = "c" + "n" * (n - 1)
+        decl_p, decl_e = f"; {count} : INTEGER", ""
+    agg = f"[0 : {count}]"
+    if position == "case_label_nested":
+        agg = f"[[0 : {count}] : 2]"
+    if position in ("case_label_function", "case_label_nested"):
+        body = (f"FUNCTION f(x : INTEGER{decl_p}) : INTEGER;\nLOCAL\n  r : INTEGER := 0;\n  l : LIST OF {'LIST OF ' if 'nested' in position else ''}INTEGER := [];\nEND_LOCAL;\n"
+                f"  CASE l OF\n    {agg} : r := 1;\n    OTHERWISE : r := 2;\n  END_CASE;\n  RETURN (r);\nEND_FUNCTION;\n")
+    elif position == "case_label_rule":
+        cnt = count if kind != "ident" else "SIZEOF(a)"
+        body = (f"ENTITY a;\n  v : INTEGER;\nEND_ENTITY;\nRULE rr FOR (a);\nLOCAL\n  l : LIST OF INTEGER := [];\n  r : INTEGER := 0;\nEND_LOCAL;\n"
+                f"  CASE l OF\n    [0 : {cnt}] : r := 1;\n    OTHERWISE : r := 2;\n  END_CASE;\nWHERE\n  wr1 : r > 0;\nEND_RULE;\n")
+    elif position == "local_initialiser":
+        body = f"FUNCTION f(x : INTEGER{decl_p}) : INTEGER;\nLOCAL\n  l : LIST OF INTEGER := {agg};\nEND_LOCAL;\n  RETURN (SIZEOF(l));\nEND_FUNCTION;\n"
+    elif position == "call_argument":
+        body = f"FUNCTION f(x : INTEGER{decl_p}) : INTEGER;\n  RETURN (SIZEOF({agg}));\nEND_FUNCTION;\n"
+    else:
+        cnt = count if kind != "ident" else "v"
+        a2 = f"[0 : {cnt}]" if kind != "ident" else f"[0 : v + {' + '.join(['1'] * max(1, n // 4))}]"
+        if position == "derive":
+            body = f"ENTITY a;\n  v : INTEGER;\nDERIVE\n  d : LIST OF INTEGER := {a2};\nEND_ENTITY;\n"
+        else:
+            body = f"ENTITY a;\n  v : INTEGER;\nWHERE\n  w1 : v + SIZEOF({a2}) > 0;\nEND_ENTITY;\n"
+    return f"SCHEMA r;\n{decl_e}{body}END_SCHEMA;\n".encode()
+
